@@ -92,7 +92,8 @@ fn pick_prop(rng: &mut Rng, name: String, nv: usize, allow_const: bool) -> PDef 
             name,
             kind: PKind::Content,
             col: if constant {
-                Col::Const
+                // one pack id for the whole column (stored as a default), of one or two bytes
+                Col::Content { packs: 0, maxid: *rng.pick(&[1u32, 255, 256, 300, 65_535]) }
             } else {
                 match rng.below(5) {
                     0 => Col::Content { packs: 1, maxid: 200 },
